@@ -697,7 +697,7 @@ class Interp:
             self._mkstore(f"{base.data}._options.{key}", v, idx, fr, st, op)
         elif k in ("lookups", "is_elements"):
             key = idx.data if idx.is_const else "?"
-            self._mkstore(f"net.{'_pd2ppc_lookups' if k == 'lookups' else '_is_elements'}.{key}", v, idx, fr, st, op)
+            self._mkstore(f"{base.data}.{'_pd2ppc_lookups' if k == 'lookups' else '_is_elements'}.{key}", v, idx, fr, st, op)
         elif k in ("val", "list", "tuple"):
             # weak update of a local array; a write through a view reaches the aliased storage
             if base.view:
@@ -1578,7 +1578,7 @@ class Interp:
                     r = join(r, args[1])
                 return r
             if meth == "update":
-                self._mkstore(f"net._{k}.*", join_all(list(args)) if args else UNKNOWN, UNKNOWN, fr, node, op="update")
+                self._mkstore(f"{base.data}._{k}.*", join_all(list(args)) if args else UNKNOWN, UNKNOWN, fr, node, op="update")
             return AV(alld | base.deps, "val")
         if k == "tmap":
             if meth in ("get", "pop", "__getitem__") and args:
